@@ -7,6 +7,7 @@
 
 namespace enumx {
 
+extern char* progressPage;      // shared page: the item in progress (crash attribution), may be null
 extern std::string scratchDir;  // /dev/shm/verif-enumx-<pid>
 
 // Each part fills `res`; returns nothing (main writes the file and derives the exit code).
